@@ -220,11 +220,19 @@ RECIPES = [
     ("pg_insert", "on_conflict_do_update", "sqlalchemy.sql.base:HasSyntaxExtensions.ext", "oc_update"),
     ("pg_insert", "values", "sqlalchemy.sql.dml:ValuesBase.values", "values"),
     ("pg_insert", "returning", "sqlalchemy.sql.dml:UpdateBase.returning", "col0"),
+    ("compound", "set_label_style", None, "label_style"),
+    ("compound", "set_label_style", None, "label_style_none"),
+    ("select", "set_label_style", None, "label_style_none"),
+    # textual statements: bindparams() / columns() are generative as well
+    ("text", "bindparams", "sqlalchemy.sql.elements:TextClause.bindparams", "text_bp_value"),
+    ("text", "bindparams", "sqlalchemy.sql.elements:TextClause.bindparams", "text_bp_value"),
+    ("text", "bindparams", "sqlalchemy.sql.elements:TextClause.bindparams", "text_bp_typed"),
+    ("text", "execution_options", "sqlalchemy.sql.base:Executable.execution_options", "exec_opts"),
     ("compound", "order_by", "sqlalchemy.sql.selectable:GenerativeSelect.order_by", "ccol"),
     ("compound", "limit", "sqlalchemy.sql.selectable:GenerativeSelect.limit", "int"),
     ("compound", "offset", "sqlalchemy.sql.selectable:GenerativeSelect.offset", "int"),
 ]
-KINDS = ["select", "select", "select", "insert", "update", "delete", "compound", "sqlite_insert", "sqlite_insert", "pg_insert"]
+KINDS = ["select", "select", "select", "insert", "update", "delete", "compound", "compound", "sqlite_insert", "sqlite_insert", "pg_insert", "text", "text"]
 NFIELDS = 40
 
 
@@ -343,6 +351,16 @@ def _args(kind, name, seed, stmt_kind):
         return (a, a + r.randint(1, 5)), {}
     if name == "label_style":
         return (LABEL_STYLE_TABLENAME_PLUS_COL,), {}
+    if name == "label_style_none":
+        from sqlalchemy.sql.selectable import LABEL_STYLE_DISAMBIGUATE_ONLY, LABEL_STYLE_NONE
+
+        return (r.choice([LABEL_STYLE_NONE, LABEL_STYLE_DISAMBIGUATE_ONLY, LABEL_STYLE_TABLENAME_PLUS_COL]),), {}
+    if name == "text_bp_value":
+        return (), {r.choice(["lo", "hi"]): r.randint(0, 99)}
+    if name == "text_bp_typed":
+        from sqlalchemy import Integer, String
+
+        return (bindparam(r.choice(["lo", "hi"]), r.randint(0, 99), type_=r.choice([Integer, String])),), {}
     if name == "exec_opts":
         return (), {"k%d" % r.randint(0, 2): r.randint(0, 5)}
     if name == "cte":
@@ -395,6 +413,13 @@ def _base(kind):
         return t.update()
     if kind == "delete":
         return t.delete()
+    if kind == "text":
+        from sqlalchemy import Integer, bindparam, text
+
+        # the parameters already carry a type: a later bindparams(name=value) works on existing BindParameter objects
+        return text("select id from t where x between :lo and :hi").bindparams(
+            bindparam("lo", type_=Integer), bindparam("hi", type_=Integer)
+        )
     if kind == "sqlite_insert":
         from sqlalchemy.dialects.sqlite import insert as sqlite_insert
 
